@@ -51,6 +51,21 @@ CLAIMED.update({
               "built. Generator quality is assumed. Trusted: TLC, the recorder, float64 evaluation of exp(-D)."),
         technique="TLA+ spec + TLC exhaustive; code->spec trace validation; directed draws at spec levels",
         design_ref="4/C03, 3.2"),
+    "C04": dict(
+        engine="MStep", category="model_checking",
+        text=("TLC evaluates the closed forms of specs/MStep.tla exactly (rationals) on every cohort of 2-3 integer latent values "
+              "x 3 pre-step means x {memory-less, normal} and on every observed / missing pattern of a 2x2x2 grid with a padded "
+              "visit (VarNormalDominates, NoiseUsesObservedOnly, NoiseConsistent); each case is fed to the library's own update "
+              "machinery on a mini variable graph (ModelParameter rules, Collect, Gaussian observation model, "
+              "compute_sufficient_statistics, update_parameters) and TLC compares prior mean, prior variance, scalar and per-feature "
+              "noise variance, compute-then-assign order and population-mean identity with the specification (MStepTrace.tla), "
+              "checking that the records cover the space; real fits incl. the mixture model and a run without memory-less phase "
+              "are validated against SaemTrace.tla (BatchUpdate, burn-in flag, statistics identity)."),
+        note=("Exact on the enumerated integer cases (float32 squares compared within 2e-5 relative); composition argument: every "
+              "iteration calls exactly these rule functions with the statistics in force and the pre-step state (trace-validated). "
+              "Mixture responsibilities are bound only through fit traces."),
+        technique="TLA+ closed forms evaluated exactly by TLC; spec-enumerated cases run on the code; trace validation of fits",
+        design_ref="4/C04"),
     "C05": dict(
         engine="Saem", category="model_checking",
         text=("TLC checks PhaseRule, StepIndexRule, BurnInLength, PowerRefusedInv, BatchUpdate, SampledOnce and Termination of "
@@ -138,6 +153,7 @@ CLAIMED.update({
 })
 
 ENGINES = {
+    "MStep": dict(path="specs/MStep.tla", kind="TLA+ closed forms of the maximization rules (+ MStepTrace.tla)"),
     "IndParams": dict(path="specs/IndParams.tla", kind="TLA+ case table of individual-parameter conversions (+ IndParamsTrace.tla)"),
     "ModelLifecycle": dict(path="specs/ModelLifecycle.tla", kind="TLA+ state machine of API call histories on a model object"),
     "Ingest": dict(path="specs/Ingest.tla", kind="TLA+ case table of table ingestion (+ IngestTrace.tla)"),
